@@ -92,12 +92,21 @@ def run_pipe_property(prop, tier):
         for sd in seeds:
             out = os.path.join(d, "p%d.ndjson" % sd)
             p = vlib.run([drv, "pipe-trace", "-seed", str(sd), "-runs", str(nruns), "-maxn", str(maxn), "-out", out], timeout=3600)
+            got = open(out).read().splitlines() if os.path.exists(out) else []
             if p.returncode != 0:
-                raise Broken("pipe-trace failed: " + p.stderr[-3000:])
-            lines += open(out).read().splitlines()
+                # a panic in one of the pipeline's own goroutines (or a fatal runtime error) kills the driver: that is an observation
+                # of the run announced by the last Reset record, not a failure of the machinery
+                crashed = ("panic:" in p.stderr or "fatal error:" in p.stderr) and "texel/processing" in p.stderr
+                if not crashed or not got:
+                    raise Broken("pipe-trace failed: " + p.stderr[-3000:])
+                k = max(i for i, ln in enumerate(got) if '"e":"Reset"' in ln)
+                msg = [x for x in p.stderr.splitlines() if x.startswith("panic:") or x.startswith("fatal error:")][:1]
+                got = got[:k + 1] + [json.dumps({"e": "Crash", "msg": (msg or ["process died"])[0][:300]})]
+            lines += got
     finally:
         vlib.rm(d)
     tstates, ok_runs, total_runs = validate(lines, maxn, v, "real ProcessFeatures")
+    gp = gpkg_pipe_part(prop, tier, v)
     heads = [json.loads(x) for x in lines if '"e":"Reset"' in x]
     cov = {
         "states": dstates + tstates, "transitions": dtrans + tstates,
@@ -105,6 +114,7 @@ def run_pipe_property(prop, tier):
         "samples": [json.loads(x) for x in lines[:12]],
         "design_models": cfgs, "design_states": dstates, "trace_events": len(lines), "runs": total_runs,
         "runs_accepted": ok_runs,
+        "real_geopackage_runs_under_race_detector": gp,
         "empty_streams": sum(1 for h in heads if h["n"] == 0),
         "max_stream": max([h["n"] for h in heads] or [0]),
         "targets_hist": {str(k): sum(1 for h in heads if len(h["targets"]) == k) for k in range(1, 6)},
@@ -120,8 +130,48 @@ def run_pipe_property(prop, tier):
     return rc
 
 
+def gpkg_pipe_part(prop, tier, v):
+    """The pipeline with real GeoPackage source/targets from a -race build: rows, per-target geometry, race reports."""
+    drv = vlib.build_harness(race=True)
+    cases = [(3, 2, 150, 7), (2, 2, 90, 1), (4, 4, 120, 1000), (3, 1, 60, 3)] if tier == "quick" else \
+            [(t, e, c, p) for t in (2, 3, 5) for e in (1, 2, 3, 4, 6) for (c, p) in ((150, 7), (400, 1), (300, 1000))]
+    recs = []
+    for i, (nt, extra, count, page) in enumerate(cases):
+        d = vlib.scratch("gpkgpipe")
+        try:
+            env = dict(vlib.GOENV)
+            env["GORACE"] = "halt_on_error=0"
+            p = vlib.run([drv, "gpkg-pipe", "-dir", d, "-seed", str(vlib.seed() * 31 + i), "-targets", str(nt), "-extra", str(extra),
+                          "-count", str(count), "-p", str(page)], timeout=900, env=env)
+        finally:
+            vlib.rm(d)
+        ls = [x for x in p.stdout.splitlines() if x.startswith("{")]
+        if ls:
+            rec = json.loads(ls[-1])
+            rec["status"] = "ok"
+        else:
+            rec = {"e": "GpkgPipe", "targets": nt, "extra": extra, "expected": count, "rows": [], "wrong_geom": 0, "disorder": 0,
+                   "other_expected": count // 3, "other_rows": [], "status": "died: " + p.stderr[-300:]}
+        rec["races"] = p.stderr.count("WARNING: DATA RACE")
+        rec["case"] = {"targets": nt, "extra": extra, "count": count, "pagesize": page}
+        recs.append(rec)
+
+    def on_fail(inv, idx, line):
+        r = json.loads(line)
+        v.violation("real GeoPackage pipeline (%s): %s fails: races=%s wrong_geom=%s rows=%s status=%s"
+                    % (r["case"], inv, r["races"], r["wrong_geom"], r["rows"], r["status"][:200]),
+                    {"kind": "gpkg-pipe", "invariant": inv, "record": r}, name="gpkgpipe")
+    vlib.validate_records("GpkgPipeTrace", "GpkgPipeTrace.cfg", "gpkgpipe_trace.ndjson", [json.dumps(r) for r in recs], on_fail=on_fail, workers=2)
+    return len(recs)
+
+
 def replay(path):
     o = json.load(open(path))
+    if o.get("kind") == "gpkg-pipe":
+        print(json.dumps(o, indent=1)[:2000])
+        v = vlib.Verdict("replay")
+        gpkg_pipe_part("C11", "quick", v)
+        return v.finish()
     v = vlib.Verdict("replay")
     lines = [json.dumps(e) for e in o["events"]]
     n = max(40, o["events"][0].get("n", 0))
